@@ -27,7 +27,8 @@ def main():
         if tr.get('errors'):
             print('translator errors:', tr['errors'])
         with core.Lock('build'):
-            rc, log = core.lake_build(['Fips204', 'model'])
+            props = sorted('Fips204.Props.' + f[:-5] for f in os.listdir(os.path.join(core.LEAN, 'Fips204', 'Props')) if f.endswith('.lean'))
+            rc, log = core.lake_build(['Fips204', 'model'] + props)
             print(log[-3000:] if rc else 'lake build ok')
             errs = core.cargo_build()
             print('cargo build', 'ok' if not errs else errs)
